@@ -1,5 +1,5 @@
 (* Dispatch entries for the Ninja models. *)
-From BFG Require Import Base.Chars Base.Sx Shell.PosixQuote Make.MakeWrite Ninja.NinjaWrite Ninja.NinjaRead Ninja.NinjaManifest.
+From BFG Require Import Base.Chars Base.Sx Shell.PosixQuote Make.MakeWrite Ninja.NinjaWrite Ninja.NinjaRead Ninja.NinjaManifest Ninja.NinjaFileWrite.
 From Coq Require Import String.
 Local Open Scope N_scope.
 
@@ -46,6 +46,22 @@ Definition sx_edge_values (m : manifest) (e : edge) : sx :=
   L [sx_opt sx_str (edge_binding true m e s_command); sx_opt sx_str (edge_binding false m e s_depfile);
      sx_opt sx_str (edge_binding true m e s_deps); sx_opt sx_str (edge_binding true m e s_description)].
 
+(* NinjaFile contents: [bfgfile, opt min_version, path vars, command vars, flags vars, other vars, rules, builds,
+   defaults]; vars = [[name items]..]; rule = [name command opt-depfile opt-deps opt-description generator opt-pool
+   restat]; build = [outs rule ins implicit order_only vars] *)
+Definition un_vars (x : sx) : list (str * items) :=
+  List.map (fun p => (un_str (nth_sx 0 p), un_nitems (nth_sx 1 p))) (un_list x).
+Definition un_wrule (x : sx) : wrule :=
+  mkWRule (un_str (nth_sx 0 x)) (un_nitems (nth_sx 1 x)) (un_opt un_nitems (nth_sx 2 x)) (un_opt un_nitems (nth_sx 3 x))
+          (un_opt un_nitems (nth_sx 4 x)) (un_bool (nth_sx 5 x)) (un_opt un_nitems (nth_sx 6 x)) (un_bool (nth_sx 7 x)).
+Definition un_wbuild (x : sx) : wbuild :=
+  mkWBuild (un_nitems (nth_sx 0 x)) (un_str (nth_sx 1 x)) (un_nitems (nth_sx 2 x)) (un_nitems (nth_sx 3 x))
+           (un_nitems (nth_sx 4 x)) (un_vars (nth_sx 5 x)).
+Definition un_wfile (x : sx) : wfile :=
+  mkWFile (un_str (nth_sx 0 x)) (un_opt un_str (nth_sx 1 x)) (un_vars (nth_sx 2 x)) (un_vars (nth_sx 3 x))
+          (un_vars (nth_sx 4 x)) (un_vars (nth_sx 5 x)) (List.map un_wrule (un_list (nth_sx 6 x)))
+          (List.map un_wbuild (un_list (nth_sx 7 x))) (un_nitems (nth_sx 8 x)).
+
 Definition table : list (string * (sx -> sx)) := [
   ("ninja.escape_str", fun a => sx_opt sx_str (nj_escape_str (un_str (nth_sx 0 a)) (un_nsyntax (nth_sx 1 a))));
   ("ninja.write", fun a => sx_opt (sx_pair sx_str sx_bool)
@@ -71,6 +87,17 @@ Definition table : list (string * (sx -> sx)) := [
         end
       else L []);
   (* ---- the manifest structure parser and edge evaluation (NinjaManifest.v) ---- *)
+  (* ---- NinjaFile.write and writer.py on an empty file (NinjaFileWrite.v) ---- *)
+  ("ninja.file_write", fun a => sx_opt sx_str (nf_write (cls_of (nth_sx 0 a)) (un_wfile (nth_sx 1 a))));
+  (* [uw, bfgfile, outs, ins, implicit, order_only, command, console, phony, opt description] *)
+  ("ninja.command_build", fun a => sx_opt sx_str (nf_write (cls_of (nth_sx 0 a))
+      (w_command_build (un_str (nth_sx 1 a)) (un_strs (nth_sx 2 a)) (un_strs (nth_sx 3 a)) (un_strs (nth_sx 4 a))
+         (un_strs (nth_sx 5 a)) (un_strs (nth_sx 6 a)) (un_bool (nth_sx 7 a)) (un_bool (nth_sx 8 a))
+         (un_opt un_str (nth_sx 9 a)))));
+  (* [uw, bfgfile, cc words, global flags, target flags, src, obj] *)
+  ("ninja.compile_file", fun a => sx_opt sx_str (nf_write (cls_of (nth_sx 0 a))
+      (w_compile_file (un_str (nth_sx 1 a)) (un_strs (nth_sx 2 a)) (un_strs (nth_sx 3 a)) (un_strs (nth_sx 4 a))
+         (un_str (nth_sx 5 a)) (un_str (nth_sx 6 a)))));
   ("ninja.lex_value", fun a => sx_opt sx_toks (lex_value (un_str (nth_sx 0 a))));
   ("ninja.split_lines", fun a => sx_list sx_str (split_lines (un_str (nth_sx 0 a))));
   ("ninja.parse_manifest", fun a => sx_opt sx_manifest (parse_manifest (un_str (nth_sx 0 a))));
